@@ -81,6 +81,27 @@ Fixpoint reports_from (b : backend) (hw : Z) (w : world) (ns : list Z) : list Z 
   report b hw w :: match ns with [] => [] | n :: r => reports_from b hw (init_sys b hw n w) r end.
 Definition reports (b : backend) (hw : Z) (ns : list Z) : list Z := reports_from b hw w0 ns.
 
+(* ---- uses of the tasking system (parallel_for / schedule / async) before and between initialisations.
+   Only the internal backend keeps state of its own: scheduleTaskInternal() starts the scheduler LAZILY
+   (if (g_ts == nullptr) initTaskSystemInternal(-1)) — "scheduler started" (w_ts) is therefore a different piece of
+   state from "handle present" (w_handle), and numTaskingThreads() looks at the handle first. *)
+Inductive op := OInit (n : Z) | OUse.
+Definition use_sys (b : backend) (hw : Z) (w : world) : world :=
+  match b with
+  | Internal => match w_ts w with
+                | None => mkw (w_handle w) (w_controls w) (w_omp w) (Some hw) (hw - 1) (Z.max (w_peak w) (hw - 1))
+                | Some _ => w
+                end
+  | _ => w
+  end.
+Definition step_op (b : backend) (hw : Z) (w : world) (o : op) : world :=
+  match o with OInit n => init_sys b hw n w | OUse => use_sys b hw w end.
+Definition run_ops (b : backend) (hw : Z) (ops : list op) : world := fold_left (step_op b hw) ops w0.
+Fixpoint reports_ops_from (b : backend) (hw : Z) (w : world) (ops : list op) : list Z :=
+  report b hw w :: match ops with [] => [] | o :: r => reports_ops_from b hw (step_op b hw w o) r end.
+Definition reports_ops (b : backend) (hw : Z) (ops : list op) : list Z := reports_ops_from b hw w0 ops.
+Definition inits_of (ops : list op) : list Z := flat_map (fun o => match o with OInit n => [n] | OUse => [] end) ops.
+
 (* threads that may execute parallel_for bodies on the internal backend: the workers and the caller *)
 Definition internal_body_threads (w : world) : Z := w_workers w + 1.
 
